@@ -66,6 +66,17 @@ Theorem C01_eof_stable :
   exists e st1, next_token n st = OK (e, st1) /\ is_eof e = true /\ next_token n st1 = OK (e, st1).
 Proof. exact eof_stable. Qed.
 
+(* PeekToken is coherent with NextToken: after PeekToken returned t, NextToken returns t and
+   reaches the state NextToken alone would have reached; peeking twice changes nothing. *)
+Theorem C01_peek_then_next :
+  forall n st t st1, peek_token n st = OK (t, st1) ->
+  exists st2, next_token n st1 = OK (t, st2) /\ next_token n st = OK (t, st2).
+Proof. exact peek_then_next. Qed.
+
+Theorem C01_peek_idempotent :
+  forall n st t st1, peek_token n st = OK (t, st1) -> peek_token n st1 = OK (t, st1).
+Proof. exact peek_idempotent. Qed.
+
 (* The parser's token pump: over ANY token list followed by a repeated EOF token, ReadPeek
    (LF / COMMENT / C! W! / pragma skipping) returns and the pump reaches EOF. *)
 Theorem C01_pump_total :
@@ -167,6 +178,8 @@ Print Assumptions C01_lex_ends_with_eof.
 Print Assumptions C01_lex_located.
 Print Assumptions C01_position_unique.
 Print Assumptions C01_eof_stable.
+Print Assumptions C01_peek_then_next.
+Print Assumptions C01_peek_idempotent.
 Print Assumptions C01_pump_total.
 Print Assumptions C01_pump_no_crash.
 Print Assumptions C01_pump_source_returns.
